@@ -25,14 +25,18 @@ static carquet_reader_t* open_mode(int mode, const uint8_t* img, size_t n, int v
 }
 
 /* drains column `leaf` of row group `rg` with read_batch(3) calls; returns rows delivered, *err_end = loop ended with a negative return */
-static int64_t drain_column(carquet_reader_t* rd, int rg, int leaf, int ptype, int tlen, bool* err_end, bool* open_failed) {
+static int64_t drain_column(carquet_reader_t* rd, int rg, int leaf, int ptype, int tlen, int maxdef, bool* err_end, bool* open_failed) {
     carquet_error_t err = CARQUET_ERROR_INIT; *err_end = false; *open_failed = false;
     carquet_column_reader_t* cr = carquet_reader_get_column(rd, rg, leaf, &err); if (!cr) { *open_failed = true; return 0; }
     int w = ref_type_width(ptype, tlen); size_t vs = ptype == PT_BYTE_ARRAY ? sizeof(carquet_byte_array_t) : (size_t)w; int64_t rows = 0;
     for (int guard = 0; guard < 10000; guard++) {
         uint8_t* vb = mc_exact(NULL, vs * 3); int16_t* db = mc_exact(NULL, 6);
         int64_t n = carquet_column_read_batch(cr, vb, 3, db, NULL);
-        if (n > 0 && ptype == PT_BYTE_ARRAY) { carquet_byte_array_t* ba = (carquet_byte_array_t*)vb; volatile uint8_t sink = 0; for (int64_t i = 0; i < n; i++) if (db[i] > 0 || 1) { if (ba[i].length > 0 && ba[i].length < 100000 && ba[i].data && (i < n)) { /* touching is only safe for delivered non-null values; skipped: layout checked elsewhere */ } } (void)sink; }
+        /* values reported as delivered are the caller's to read: every non-null byte-array value is read in full */
+        if (n > 0 && n <= 3 && ptype == PT_BYTE_ARRAY) { carquet_byte_array_t* ba = (carquet_byte_array_t*)vb; volatile uint8_t sink = 0; int64_t nn = 0;
+            for (int64_t i = 0; i < n; i++) if (db[i] >= maxdef) nn++;
+            for (int64_t i = 0; i < nn; i++) { if (ba[i].length < 0) { mc_fail("read_batch.negative-byte-array-length", "rg %d column %d", rg, leaf); break; } for (int32_t q = 0; q < ba[i].length; q++) sink ^= ba[i].data[q]; }
+            (void)sink; }
         free(vb); free(db);
         if (n < 0) { *err_end = true; break; }
         if (n == 0) break;
@@ -54,14 +58,14 @@ static void judge(const uint8_t* img, size_t n, const ref_file* rf, const ref_pa
     carquet_error_t err = CARQUET_ERROR_INIT; char key[160]; g_applied++;
     carquet_reader_t* rd = open_mode(mode, img, n, 1, &err);
     if (!rd) { mc_fail("damaged.open-failed", "%s: page damage must not affect open (code %d %s)", what, err.code, err.message); return; }
-    bool ee, of; int64_t rows = drain_column(rd, pg->rg, pg->leaf, sh->ptype[pg->leaf], sh->tlen[pg->leaf], &ee, &of);
+    bool ee, of; int64_t rows = drain_column(rd, pg->rg, pg->leaf, sh->ptype[pg->leaf], sh->tlen[pg->leaf], sh->opt[pg->leaf] ? 1 : 0, &ee, &of);
     const char* pk = pg->page_type == 2 ? "dictionary-page" : "data-page";
     int64_t limit = pg->page_type == 2 ? 0 : pg->first_level;
     if (of) { /* refusing the whole column is also "an error instead of data" */ }
     else if (rows > limit) { snprintf(key, sizeof key, "column-reader.damaged-page-delivered.%s", pk); mc_fail(key, "%s mode=%d: %lld rows delivered, the damaged page starts at row %lld", what, mode, (long long)rows, (long long)limit); }
     else if (!ee) { snprintf(key, sizeof key, "column-reader.clean-end-of-data.%s", pk); mc_fail(key, "%s mode=%d: drain ended without an error after %lld rows", what, mode, (long long)rows); }
     /* other chunks of the file are not affected */
-    for (int g = 0; g < sh->nrg; g++) for (int l = 0; l < sh->ncols; l++) { if (g == pg->rg && l == pg->leaf) continue; bool e2, o2; int64_t r2 = drain_column(rd, g, l, sh->ptype[l], sh->tlen[l], &e2, &o2); if (o2 || e2 || r2 != sh->rg_rows[g]) { mc_fail("column-reader.undamaged-chunk-affected", "%s mode=%d: rg %d col %d: rows %lld err %d", what, mode, g, l, (long long)r2, e2); break; } }
+    for (int g = 0; g < sh->nrg; g++) for (int l = 0; l < sh->ncols; l++) { if (g == pg->rg && l == pg->leaf) continue; bool e2, o2; int64_t r2 = drain_column(rd, g, l, sh->ptype[l], sh->tlen[l], sh->opt[l] ? 1 : 0, &e2, &o2); if (o2 || e2 || r2 != sh->rg_rows[g]) { mc_fail("column-reader.undamaged-chunk-affected", "%s mode=%d: rg %d col %d: rows %lld err %d", what, mode, g, l, (long long)r2, e2); break; } }
     int64_t before = 0; for (int g = 0; g < pg->rg; g++) before += sh->rg_rows[g]; before += limit;
     int64_t rb = 0; drain_batches(rd, &ee, &rb);
     if (rb > before) { snprintf(key, sizeof key, "batch-reader.damaged-page-delivered.%s", pk); mc_fail(key, "%s mode=%d: batches delivered %lld rows, the damaged page starts at table row %lld", what, mode, (long long)rb, (long long)before); }
@@ -69,7 +73,7 @@ static void judge(const uint8_t* img, size_t n, const ref_file* rf, const ref_pa
     carquet_reader_close(rd);
     /* verification off: any result, but memory-safe (ASan) */
     rd = open_mode(mode, img, n, 0, &err);
-    if (rd) { for (int g = 0; g < sh->nrg; g++) for (int l = 0; l < sh->ncols; l++) { bool e2, o2; drain_column(rd, g, l, sh->ptype[l], sh->tlen[l], &e2, &o2); } int64_t x; drain_batches(rd, &ee, &x); carquet_reader_close(rd); }
+    if (rd) { for (int g = 0; g < sh->nrg; g++) for (int l = 0; l < sh->ncols; l++) { bool e2, o2; drain_column(rd, g, l, sh->ptype[l], sh->tlen[l], sh->opt[l] ? 1 : 0, &e2, &o2); } int64_t x; drain_batches(rd, &ee, &x); carquet_reader_close(rd); }
     (void)rf;
 }
 
@@ -83,7 +87,7 @@ static void damage_all(const uint8_t* img, size_t n, const shape_t* sh, const ch
     /* undamaged: never a checksum error, in every mode */
     for (int mode = 0; mode < 5; mode++) {
         carquet_error_t err = CARQUET_ERROR_INIT; carquet_reader_t* rd = open_mode(mode, img, n, 1, &err); if (!rd) { mc_fail("undamaged.open-failed", "%s mode=%d code %d", fdesc, mode, err.code); continue; }
-        for (int g = 0; g < sh->nrg; g++) for (int l = 0; l < sh->ncols; l++) { bool ee, of; int64_t r = drain_column(rd, g, l, sh->ptype[l], sh->tlen[l], &ee, &of); if (of || ee || r != sh->rg_rows[g]) mc_fail("undamaged.read-error", "%s mode=%d rg %d col %d: rows %lld of %lld err %d", fdesc, mode, g, l, (long long)r, (long long)sh->rg_rows[g], ee); }
+        for (int g = 0; g < sh->nrg; g++) for (int l = 0; l < sh->ncols; l++) { bool ee, of; int64_t r = drain_column(rd, g, l, sh->ptype[l], sh->tlen[l], sh->opt[l] ? 1 : 0, &ee, &of); if (of || ee || r != sh->rg_rows[g]) mc_fail("undamaged.read-error", "%s mode=%d rg %d col %d: rows %lld of %lld err %d", fdesc, mode, g, l, (long long)r, (long long)sh->rg_rows[g], ee); }
         bool ee; int64_t rb; drain_batches(rd, &ee, &rb); if (ee) mc_fail("undamaged.batch-error", "%s mode=%d", fdesc, mode);
         carquet_reader_close(rd);
     }
